@@ -148,7 +148,8 @@ def corr_tree(ctx, cases_progs, dist):
             # parse_input() moves the trailing 'c' comment lines of an input to the start of the next one, so
             # the comparison is exact (flatten_equals_input) or exact up to whole comment lines (modulo_comment_lines)
             txt = bytes.fromhex(a).decode("latin-1") if a and all(c in "0123456789abcdef" for c in a) else a
-            if txt.rstrip() == m[1].rstrip():
+            # (case-insensitively, like every comparison of the property: a ParticleNode re-spells ':N,e' as ':N,E')
+            if txt.rstrip().upper() == m[1].rstrip().upper():
                 lossless["flatten_equals_input"] += 1
                 lossless["modulo_comment_lines"] = lossless.get("modulo_comment_lines", 0) + 1
             elif _no_c_lines(txt) == _no_c_lines(m[1]):
@@ -179,7 +180,7 @@ def corr_tree(ctx, cases_progs, dist):
 
 
 def _no_c_lines(text):
-    return [l.rstrip() for l in text.split("\n") if l.strip() and not spec.is_comment_line(l)]
+    return [l.rstrip().upper() for l in text.split("\n") if l.strip() and not spec.is_comment_line(l)]
 
 
 def load_corpus(prop):
